@@ -11,7 +11,7 @@ from typing import List, Optional, Tuple
 
 from gxstat.atoms import AtomResolver
 from gxstat.registry import Unfolded, get_registry
-from gxstat.srcmodel import const_value, dotted_name, enclosing_class, norm
+from gxstat.srcmodel import const_value, dotted_name, enclosing_class, norm, parent
 
 NOT_RUNNABLE = ('AGSWellBores', 'SurfacePlantAGS', 'AGSEconomics', 'TOUGH2Reservoir')    # no witness possible offline
 
@@ -68,12 +68,21 @@ def heuristic_sites(repo):
                 d = res.decl(key)
                 if d is None and key.split('.')[0] in ('ParameterToModify', 'param', 'p'):
                     # generic reader object: identified by a Name test in the same guard
-                    for c in ast.walk(n.test):
-                        if isinstance(c, ast.Compare) and len(c.ops) == 1 and isinstance(c.ops[0], ast.Eq) and \
-                                norm(c.left).endswith('.Name') and isinstance(c.comparators[0], ast.Constant):
-                            nm = c.comparators[0].value
-                            if cls:
-                                d = next((x for x in reg.class_decls(cls) if x.name == nm), None)
+                    tests = [n.test]
+                    up = parent(n)
+                    prev = n
+                    while up is not None and up is not f.node:
+                        if isinstance(up, ast.If) and any(prev is x for x in up.body):
+                            tests.append(up.test)
+                        prev = up
+                        up = parent(up)
+                    for tst in tests:
+                        for c in ast.walk(tst):
+                            if d is None and isinstance(c, ast.Compare) and len(c.ops) == 1 and isinstance(c.ops[0], ast.Eq) and \
+                                    norm(c.left).endswith('.Name') and isinstance(c.comparators[0], ast.Constant):
+                                nm = c.comparators[0].value
+                                if cls:
+                                    d = next((x for x in reg.class_decls(cls) if x.name == nm), None)
                 if d is None or not d.is_input:
                     continue
                 how = ('*' if isinstance(st.value.op, ast.Mult) else '/') + repr(k)
